@@ -73,6 +73,7 @@ ATOMIC = [
     ("perf_array", 2),
     ("num_tracks", 2),
     ("save_match", 2),
+    ("save_match_file", 2),
     ("na_slice", 3),
     ("na_pianoroll", 2),
     ("na_estimate", 2),
@@ -82,7 +83,7 @@ ITER = [("loop", 5), ("partial", 3), ("nested", 4), ("loop_call", 4), ("iter_unf
 
 
 def _gen_atomic(o, nparts, has_perf, cfg):
-    kinds = [(k, w) for k, w in ATOMIC if has_perf or k not in ("perf_midi", "perf_array", "num_tracks", "save_match")]
+    kinds = [(k, w) for k, w in ATOMIC if has_perf or k not in ("perf_midi", "perf_array", "num_tracks", "save_match", "save_match_file")]
     k = R.pick_weighted(o, kinds)
     op = {"k": k}
     tgt = o.choice(["score"] + ["part%d" % i for i in range(nparts)])
@@ -116,7 +117,9 @@ def _gen_atomic(o, nparts, has_perf, cfg):
             op.update(a=o.choice((0, 0, 1, 2)), b=o.choice((1, 2, 3, 5, 100)), clip=o.random() < 0.8, which=o.choice(("last_onset", "span", "fixed")))
         if k == "na_estimate":
             op.update(what=o.choice(("spelling", "voices", "key")))
-    if cfg == "fault" and k in ("save_xml", "save_midi", "perf_midi") and op.get("route") != "str" and o.random() < 0.6:
+    if k == "save_match_file":
+        op.update(route="path")
+    if cfg == "fault" and k in ("save_xml", "save_midi", "perf_midi", "save_match_file") and op.get("route") != "str" and o.random() < 0.6:
         op["fault"] = {"kind": o.choice(("write_error", "write_error", "close_error", "crash") + (("open_error",) if op.get("route") == "path" else ())), "at": o.choice((0, 1, 2, 3, 5, 8, 20)), "errno": o.choice((28, 5))}
     return op
 
@@ -149,6 +152,12 @@ def generate(seed, tier, cfg):
             else:
                 prog.append(_gen_atomic(o, nparts, has_perf, cfg))
         programs.append(prog)
+    # some notes carry no explicit symbolic duration (it is then estimated on every read)
+    if k.random() < 0.4:
+        for p in asc["parts"]:
+            for n in p["notes"]:
+                if n.get("g") is None and st.workload.random() < 0.3:
+                    n["sym"] = None
     nsteps = sum(len(p) for p in programs) * 6 + 20
     policy = k.choice(("uniform", "bursty", "uniform", "rr"))
     return {
@@ -156,7 +165,7 @@ def generate(seed, tier, cfg):
         "perf_seed": st.workload.randrange(1 << 30) if has_perf else None,
         "programs": programs,
         "schedule": sched.gen_schedule(st.schedule, nclients, nsteps, policy),
-        "knobs": {"policy": policy, "reclimit": k.choice((1000, 1500, 3000)), "profile": profile, "chunk": k.choice((0, 0, 7, 16, 512))},
+        "knobs": {"policy": policy, "reclimit": k.choice((1000, 1500, 3000)), "profile": profile, "chunk": k.choice((0, 0, 7, 16, 512)), "musical_beat": [i for i in range(nparts) if k.random() < 0.3]},
     }
 
 
@@ -253,6 +262,14 @@ class World(object):
         self.case = case
         self.asc = case["workload"]
         self.score = build.build_score(self.asc, with_pages=True)
+        kn = case.get("knobs", {})
+        # documented in-place settings applied before the object is shared
+        for i, p in enumerate(self.score.parts):
+            if i in kn.get("musical_beat", ()):
+                try:
+                    p.use_musical_beat()
+                except Exception:
+                    pass
         self.perf = None
         self.align = None
         if case.get("perf_seed") is not None:
@@ -432,6 +449,12 @@ def run_atomic(w, op, res, sink=None):
                 return FP.value_fp(note_array_to_score(na[["onset_beat", "duration_beat", "pitch"]] if False else na))
         if k == "num_tracks":
             return [w.perf.num_tracks] + [pp.num_tracks for pp in w.perf.performedparts]
+        if k == "save_match_file":
+            from partitura.io.exportmatch import save_match
+
+            o = out_for("path")
+            save_match(w.align, w.perf.performedparts[0], w.score.parts[0], o.path, assume_unfolded=True)
+            return bytes(o.data)
         if k == "save_match":
             from partitura.io.exportmatch import matchfile_from_alignment
 
